@@ -750,7 +750,14 @@ pub fn outer_statement<'t>(ctx: Context<'t>) -> ParseResult<Statement> {
         | EmptyStatement
         => Ok((ctx, stmt)),
 
-        _ => raise_syntax_error!(ctx, "Not a valid outer statement"),
+        _ => Err((
+            ctx.skip(1),
+            vec![Error::SyntaxError {
+                file: ctx.file.clone(),
+                span: stmt.span,
+                message: "Not a valid outer statement".into(),
+            }],
+        )),
     }
 }
 
